@@ -51,6 +51,10 @@ def cases(chk):
     ] + [
         {"variant": "XX", "edge": False, "passive": True, "cuts": ["bad-answer", "bad-answer"], "corrupt": False, "immediate": 0, "down": 1, "up": 0, "chunk": 4, "seed": 30 + i} for i in range(6)
     ]
+    corpus += [
+        {"variant": "XX", "edge": False, "passive": False, "cuts": [], "corrupt": False, "immediate": 0, "down": 3, "up": 2, "chunk": 0, "seed": 40 + i, "big": b_}
+        for i, b_ in enumerate([65535, 65536, (1 << 20) - 64, 1 << 20, (1 << 20) + 4096])
+    ] + [{"variant": "IK", "edge": True, "passive": True, "cuts": ["after-handshake"], "corrupt": False, "immediate": 1, "down": 2, "up": 1, "chunk": 65536, "seed": 50, "big": (1 << 20) + 1}]
     for c in corpus:
         yield "login", c
     # frames written together with the server's reply of a resumed login: the race between the end of the handshake and the network thread
@@ -268,7 +272,9 @@ def run_case(chk, stream, case):
                 return
             st["app_go"] = True
             for i in range(case["down"]):
-                node = ProtocolTreeNode("iq", {"id": "dn%d" % i, "type": "result"}, [ProtocolTreeNode("x", data=b"d" * (i * 9))])
+                # (case["big"]: the first server frame carries that many bytes — sizes around 2^16 and 2^20, where a length field read
+                # with too few bits shows)
+                node = ProtocolTreeNode("iq", {"id": "dn%d" % i, "type": "result"}, [ProtocolTreeNode("x", data=b"d" * (case.get("big", 0) if i == 0 and case.get("big") else i * 9))])
                 st["sent_frames"].append("dn%d" % i)
                 srv.send_frame(encode_node(node))
                 if r.random() < 0.5:
@@ -285,7 +291,7 @@ def run_case(chk, stream, case):
                 return
             coop.point()
         for i in range(case["up"]):
-            w.top.send(ProtocolTreeNode("iq", {"id": "up%d" % i, "type": "get"}, [ProtocolTreeNode("y", data=b"u" * (i * 5))]))
+            w.top.send(ProtocolTreeNode("iq", {"id": "up%d" % i, "type": "get"}, [ProtocolTreeNode("y", data=b"u" * (case.get("big", 0) if i == 0 and case.get("big") else i * 5))]))
         st["app_done"] = True
 
     c.spawn(network)
